@@ -63,6 +63,11 @@ def run(ctx):
         sp['opts']['refix_mode'] = 'prices'
         sp['opts']['n_inj'] = 0
     specs += rf
+    # prices in small units (EUR per Wh: marginal values of the order 1e-6 .. 1e-5, not zero)
+    tiny = util.rescaled(gen.gen_many(ctx.seed, n // 3, dict(CFG, p_coarse=0.0, p_periodic=0.0, kinds={'SimpleContract': 3, 'Transport': 2, 'Storage': 2}), 'c18wh_'), 2.0 ** -20, 1.0)
+    for sp in tiny:
+        sp['opts']['n_inj'] = 3
+    specs += tiny
     specs = ctx.specs(specs)
     res = C.run_impl('prices', specs)
     exprs, owners = [], []
